@@ -28,7 +28,7 @@ RULE = (
     "A run is either a history (one client executes a seeded sequence of 5..40 calls drawn with repetition from "
     "the call pool in one interpreter) or a schedule (2..16 real threads, 1..6 calls each on distinct SimDisk "
     "paths, interleaved by the seeded baton scheduler at iodata line granularity and at seam calls; policies: "
-    "random switching with p in {0.2%,1%,5%}, PCT with d in {1,2,3}). Every call's outcome record (object digest "
+    "random switching with p in {0.2%,1%,5%}, the same plus pre-emption with p_new in {2%,10%,30%} at lines executed for the first time in the run, PCT with d in {1,2,3}). Every call's outcome record (object digest "
     "/ bytes / exception type+message) must equal the record of the same call alone in a pristine fork; module "
     "table digests must stay pristine. Non-trivial = history of >= 2 calls, or a schedule in which at least one "
     "context switch landed inside an API call; distinct = hash of (call sequence) resp. (clients, switch list)."
@@ -294,11 +294,20 @@ def _restore_warn_state(st):
     return changed
 
 
+def _cold_start():
+    """Preparing the arguments (loading corpus objects) may have warmed memo caches or other scratch state;
+    every run starts from the pristine module state so that it does not depend on what the worker did before
+    (and replays in a fresh interpreter see the same state)."""
+    if _GUARD is not None and _GUARD.changed():
+        _GUARD.restore()
+
+
 def run_history(trace, refs, stats=None):
     """One client, calls in sequence; oracle after every call."""
     out = []
     calls = trace["calls"]
     preps = [prepare_call(c) for c in calls]
+    _cold_start()
     disk = seams.SimDisk(log_events=False)
     wst = _save_warn_state()
     recs = []
@@ -337,6 +346,7 @@ def run_threads(trace, refs, rng=None, stats=None):
     out = []
     clients = trace["clients"]
     preps = [[prepare_call(c) for c in cl] for cl in clients]
+    _cold_start()
     disk = seams.SimDisk(log_events=False)
     policy = tuple(trace["policy"])
     if trace.get("schedule") is not None:
@@ -478,8 +488,11 @@ def gen_trace(rng):
         return {"mode": "history", "calls": [copy.deepcopy(rng.choice(POOL)) for _ in range(n)]}
     nthreads = rng.choice([2, 2, 3, 3, 4, 6, 8, 16])
     clients = [[copy.deepcopy(rng.choice(POOL)) for _ in range(rng.randint(1, 6 if nthreads <= 6 else 2))] for _ in range(nthreads)]
-    if rng.random() < 0.6:
+    r = rng.random()
+    if r < 0.4:
         policy = ["random", rng.choice([0.002, 0.01, 0.05])]
+    elif r < 0.75:
+        policy = ["newline", rng.choice([0.002, 0.01]), rng.choice([0.02, 0.1, 0.3])]
     else:
         policy = ["pct", rng.choice([1, 2, 3])]
     return {"mode": "threads", "clients": clients, "policy": policy, "schedule": None, "horizon": 4000 * nthreads}
